@@ -237,7 +237,40 @@ var (
 	bound      = flag.Int("bound", 2, "deviation bound")
 	replayFile = flag.String("replay", "", "replay a recorded schedule")
 	maxExecs   = flag.Int("max-execs", 0, "per-worker cap")
+	racePass   = flag.Int("racepass", 0, "internal: free-running iterations of every scenario (binary built with -race)")
 )
+
+// racePassMain runs the scenario bodies natively (no scheduler): the race detector
+// then sees only the program's own synchronisation.
+func racePassMain(p *chainx.Prefix, scs []scen, iters int) {
+	for it := 0; it < iters; it++ {
+		for _, sc := range scs {
+			blocks := sc.blocks(p)
+			s := p.NewSession("c11r")
+			closed := false
+			for _, e := range sc.events {
+				switch {
+				case e[0] == 'b':
+					var i int
+					fmt.Sscan(e[1:], &i)
+					s.Deliver(e, blocks[i])
+				case e == "idle":
+					s.E.Ch.Idle()
+				case e == "hurry":
+					s.E.Ch.Unspent.HurryUp()
+				case e == "close":
+					s.E.Close()
+					closed = true
+				}
+			}
+			if closed {
+				s.E = nil
+			}
+			s.Close()
+		}
+	}
+	fmt.Fprintln(ev.Out, "racepass-done")
+}
 
 func classify(sc scen, x *explore.Exec, expectObs string) *viol {
 	mk := func(key, what string) *viol {
@@ -308,6 +341,12 @@ func main() {
 	utxo.UTXO_WRITING_TIME_TARGET = 0
 	_ = chain.AbortNow
 	_ = btc.COIN
+	if *racePass > 0 {
+		p := buildPrefix0()
+		racePassMain(p, scenarios(), *racePass)
+		p.Remove()
+		os.Exit(0)
+	}
 	p := buildPrefix()
 	defer p.Remove()
 	scs := scenarios()
@@ -457,6 +496,38 @@ func main() {
 		samples = append(samples, map[string]interface{}{"scenario": sc.name, "events": sc.events, "default_schedule_points": len(def.Points), "observation": def.Obs})
 		fmt.Fprintf(os.Stderr, "scenario %s: %d schedules, %d outcomes, %.1fs\n", sc.name, sres.Execs, len(sres.Outcomes), time.Since(t0).Seconds())
 	}
+	// ---- separate free-running pass under the Go race detector ----
+	raceRuns, raceReports := 0, 0
+	raceBin := ev.OutDir() + "/bin/c11-race"
+	if _, err := os.Stat(raceBin); err == nil && os.Getenv("C11_ONLY") == "" {
+		iters := 3
+		if r.Thorough() {
+			iters = 20
+		}
+		for _, procs := range []string{"1", "4", "16"} {
+			cmd := exec.Command(raceBin, "--racepass", fmt.Sprint(iters), "--tier", r.Tier)
+			cmd.Env = append(os.Environ(), "GOMAXPROCS="+procs, "GORACE=halt_on_error=0 exitcode=0")
+			var werr strings.Builder
+			cmd.Stderr = &werr
+			out, err := cmd.Output()
+			if err != nil || !strings.Contains(string(out), "racepass-done") {
+				ev.HarnessError("race pass (GOMAXPROCS=%s) failed: %v %s", procs, err, explore.Short(tailStr(werr.String(), 1500), 1500))
+			}
+			raceRuns += iters * len(scs)
+			for _, rep := range strings.Split(werr.String(), "WARNING: DATA RACE")[1:] {
+				raceReports++
+				fn := "unknown"
+				for _, l := range strings.Split(rep, "\n") {
+					l = strings.TrimSpace(l)
+					if strings.HasPrefix(l, "github.com/piotrnar/gocoin/") && !strings.Contains(l, "/vshim/") {
+						fn = strings.SplitN(strings.TrimPrefix(l, "github.com/piotrnar/gocoin/"), "(", 2)[0]
+						break
+					}
+				}
+				r.Report("data-race/"+fn, "Go race detector report in the free-running pass: "+explore.Short(rep, 1200), map[string]interface{}{"gomaxprocs": procs, "report": explore.Short(rep, 3000)})
+			}
+		}
+	}
 	var rwc map[string]int
 	if b, err := os.ReadFile(ev.OutDir() + "/.build/c11/vrewrite-counts.json"); err == nil {
 		json.Unmarshal(b, &rwc)
@@ -467,6 +538,8 @@ func main() {
 		"schedules":                     total.Execs,
 		"scenarios":                     perScen,
 		"rewrite_sites":                 rwc,
+		"race_pass_scenario_runs":       raceRuns,
+		"race_pass_reports":             raceReports,
 		"traces_validated_against_impl": total.Execs,
 		"samples":                       samples,
 		"exhaustive":                    true,
@@ -477,4 +550,11 @@ func main() {
 		"every non-default decision costs one deviation (delay bounding); bound completed is reported",
 		"instrumentation is a typed source rewrite applied through a build overlay generated from the working tree",
 	})
+}
+
+func tailStr(s string, n int) string {
+	if len(s) > n {
+		return s[len(s)-n:]
+	}
+	return s
 }
